@@ -4,6 +4,7 @@ import (
 	"bytes"
 	"context"
 	"fmt"
+	"io"
 	"strconv"
 	"strings"
 
@@ -87,7 +88,17 @@ func c09Exec(op string) (string, *Violation) {
 		if c < 0 || c > int64(len(data)) {
 			return &Violation{Signature: "pbf-offset-out-of-range", Text: fmt.Sprintf("reported offset %d is outside the %d byte stream", c, len(data))}
 		}
-		r := mk(data[c:])
+		// "where the reader started" is wherever the reader stands when the scanner gets it: a reader over the
+		// rest of the data, or - the usual way with a file - a seekable reader over all of it positioned at c
+		var r *osmpbf.Scanner
+		if len(tried)%2 == 0 {
+			rd := bytes.NewReader(data)
+			rd.Seek(c, io.SeekStart)
+			r = osmpbf.New(context.Background(), rd, procs)
+			r.SkipNodes, r.SkipWays, r.SkipRelations = skip[0] == '1', skip[1] == '1', skip[2] == '1'
+		} else {
+			r = mk(data[c:])
+		}
 		var got []osm.Object
 		var rcs, rps []int64
 		for r.Scan() {
